@@ -122,8 +122,8 @@ def main():
     chk = core.Check(ID)
     runs = chk.scale(16, 320)
     chk.rule = ('run j = f(VERIF_SEED, j): T in {2,4,8,16} threads x 30-60 conversions each over 30 documents (e-mail autolinks, notes, TOC, metadata, tables, images, citations, '
-                'CriticMarkup, corpus, generated) x 17 (format, extension, language) combos incl. packages and random-anchor options (race workload only); yields injected at 3 '
-                'hook points; TSan reports deduplicated by shared object / innermost library function pair; bytes compared with the serial run for the 11 deterministic combos; '
+                'CriticMarkup, corpus, generated) x 20 (entry point, format, extension, language) combos incl. the text-level CriticMarkup accept/reject pass, metadata keys, packages and random-anchor options (race workload only); yields injected at 3 '
+                'hook points; TSan reports deduplicated by shared object / innermost library function pair; bytes compared with the serial run for the 14 deterministic combos (serial references are computed after the threads have finished, so lazily initialised state is first used concurrently); '
                 'distinct = runs in which >= 25% of conversions overlapped a conversion on another thread')
     chk.assumptions = ['TSan sees only synchronisation it intercepts; reports whose stacks lie entirely outside /repo/src are counted, not judged',
                        'interleavings are those the scheduler and the injected yields produced']
